@@ -22,7 +22,10 @@ Lens == IF Scope = "full" THEN {1, 2, 9, 10, 11, 49, 50, 51, 59, 60, 61, 79, 80,
         ELSE {1, 10, 11, 50, 51, 60, 61, 80, 81, 120, 121}
 \* rows that spell lexer keywords (they are residues: G A P E N D T R Y M ... are amino-acid codes)
 WordRows == {<<<<71, 65, 80>>, <<69, 78, 68>>>>, <<<<68, 65, 84, 65>>, <<84, 82, 69, 69>>>>, <<<<84, 65, 88, 65>>, <<103, 97, 112, 45>>>>,
-             <<<<77, 65, 84, 82, 73, 88>>, <<65, 67, 71, 84, 65, 67>>>>, <<<<77, 73, 83, 83, 73, 78, 71>>, <<84, 82, 69, 69, 45, 45, 45>>>>, <<<<69, 78, 68, 45, 65>>, <<65, 67, 71, 84, 65>>>>}
+             <<<<77, 65, 84, 82, 73, 88>>, <<65, 67, 71, 84, 65, 67>>>>, <<<<77, 73, 83, 83, 73, 78, 71>>, <<84, 82, 69, 69, 45, 45, 45>>>>, <<<<69, 78, 68, 45, 65>>, <<65, 67, 71, 84, 65>>>>,
+             \* ... and words a number parser knows (NAN, INF, nan / -INF, INFINITY, Infinity): residues and gaps, not numbers
+             <<<<78, 65, 78>>, <<73, 78, 70>>>>, <<<<110, 97, 110, 45>>, <<45, 73, 78, 70>>>>,
+             <<<<73, 78, 70, 73, 78, 73, 84, 89>>, <<73, 110, 102, 105, 110, 105, 116, 121>>>>, <<<<45, 105, 110, 102>>, <<78, 97, 78, 45>>>>}
 WordAl(w) == [rows |-> [r \in 1..2 |-> [n |-> NameNo(r), s |-> w[r]]]]
 
 Hop(f, st, ol, nb, via, auto) == [fmt |-> f, strict |-> st, oneline |-> ol, noblock |-> nb, via |-> via, auto |-> auto]
